@@ -39,7 +39,7 @@ def gen_step(r, depth, mo):
     ws = [r.choice(W) for _ in range(n)]
     if r.random() < 0.1:
         ws = None
-    elif sum(ws) == 0 and r.random() < 0.8:
+    elif sum(ws) == 0:   # a zero total is malformed; nested it may or may not surface (steps are lazy generators), so only the explicit top-level case below uses it
         ws[r.randrange(n)] = r.choice([1, 2, 5])
     return [kind, kids, jw(ws) if ws is not None else None]
 
